@@ -11,11 +11,13 @@ import (
 	"crypto/sha3"
 	"encoding/hex"
 	"fmt"
+	"io/fs"
 	"os"
 	"path/filepath"
 	"sort"
 	"strings"
 	"sync"
+	"syscall"
 
 	"github.com/bufbuild/buf/private/buf/buftarget"
 	"github.com/bufbuild/buf/private/buf/bufworkspace"
@@ -1288,6 +1290,96 @@ func (m *dsim) workspaceBackend() {
 	if len(root) > 0 {
 		m.s.Probe("workspace-root-license-or-doc")
 	}
+	// once more with ONE failing Get or Stat somewhere in the construction (EIO, everything before and after
+	// healthy): the load or a digest fails, or every digest is still the reference - never another value.
+	// Stat of a documentation file name is left alone: buf probes for those with Stat and cannot by its API
+	// tell a failed probe from an absent file (DESIGN 5.3).
+	counter := &faultyReadBucket{ReadBucket: bucket, failAt: -1}
+	if t2, err := buftarget.NewBucketTargeting(ctx, slogext.NopLogger, counter, ".", nil, nil, buftarget.TerminateAtControllingWorkspace); err == nil {
+		if ws2, err := provider.GetWorkspaceForBucket(ctx, counter, t2); err == nil {
+			for _, mod := range ws2.Modules() {
+				_, _ = mod.Digest(bufmodule.DigestTypeB5)
+			}
+		}
+	}
+	if counter.n > 0 {
+		faulty := &faultyReadBucket{ReadBucket: bucket, failAt: 1 + m.tp.Draw("ws.failat", counter.n)}
+		reported := false
+		t3, err := buftarget.NewBucketTargeting(ctx, slogext.NopLogger, faulty, ".", nil, nil, buftarget.TerminateAtControllingWorkspace)
+		if err != nil {
+			reported = true
+		} else if ws3, err := provider.GetWorkspaceForBucket(ctx, faulty, t3); err != nil {
+			reported = true
+		} else {
+			for _, mod := range ws3.Modules() {
+				if !mod.IsLocal() {
+					continue
+				}
+				idx := -1
+				for i, d := range dirs {
+					if mod.BucketID() == d {
+						idx = i
+					}
+				}
+				if idx < 0 {
+					continue
+				}
+				d, err := mod.Digest(bufmodule.DigestTypeB5)
+				if err != nil {
+					reported = true
+					continue
+				}
+				if w := want(idx); d.String() != w && faulty.fired != "" {
+					m.violate("fault-never-changes-digest", "workspace|"+strings.SplitN(faulty.fired, " ", 2)[0], "module %d in a v2 workspace: after one failed %s (input/output error) the workspace loaded and the digest is %s, the reference %s", idx, faulty.fired, d.String(), w)
+				}
+			}
+		}
+		if faulty.fired != "" {
+			m.s.Fired("workspace-" + strings.SplitN(faulty.fired, " ", 2)[0] + "-err")
+			if reported {
+				m.s.Probe("workspace-fault-reported")
+			} else {
+				m.s.Probe("workspace-fault-harmless")
+			}
+		}
+	}
+}
+
+// faultyReadBucket fails its failAt-th Get or Stat (doc-file probes by Stat not counted) with EIO.
+type faultyReadBucket struct {
+	storage.ReadBucket
+	n      int
+	failAt int
+	fired  string
+}
+
+func (b *faultyReadBucket) hit(op, path string) error {
+	b.n++
+	if b.n == b.failAt {
+		b.fired = op + " " + path
+		return &fs.PathError{Op: op, Path: path, Err: syscall.EIO}
+	}
+	return nil
+}
+
+func (b *faultyReadBucket) Get(ctx context.Context, path string) (storage.ReadObjectCloser, error) {
+	if err := b.hit("get", path); err != nil {
+		return nil, err
+	}
+	return b.ReadBucket.Get(ctx, path)
+}
+
+func (b *faultyReadBucket) Stat(ctx context.Context, path string) (storage.ObjectInfo, error) {
+	base := path[strings.LastIndex(path, "/")+1:]
+	for _, d := range docOrder {
+		if base == d {
+			return b.ReadBucket.Stat(ctx, path)
+		}
+	}
+	if err := b.hit("stat", path); err != nil {
+		return nil, err
+	}
+	return b.ReadBucket.Stat(ctx, path)
 }
 
 // cacheRoundTripB4 does the same for the legacy digest, whose construction includes the v1
